@@ -24,6 +24,8 @@ import DvcData.Model.Build
 import DvcData.Model.IndexLazy
 import DvcData.Model.PushFetch
 import DvcData.Model.Conc
+import DvcData.Model.StoreLayout
+import DvcData.Model.IndexUpdate
 open Lean DvcData
 
 /-! Line-protocol driver: one JSON request per line on stdin, one JSON answer per line on stdout.
@@ -396,6 +398,24 @@ def opIndexSave (j : Lean.Json) : Except String Lean.Json := do
           ("bytes", String.ofList (Tree.asBytes false (IndexSave.treeBelow idx e.1)))]).toArray),
       ("file_oids", Lean.Json.arr ((IndexSave.fileOids idx).map fun o => Lean.Json.str (String.ofList o)).toArray),
       ("idempotent", .bool (IndexSave.saveDirs md5Chars saved == saved))])
+
+/-- `update(new, old)`: the hash of every entry of the new index afterwards -/
+def opIndexUpdate (j : Lean.Json) : Except String Lean.Json := do
+  match ← indexOf (← j.getObjVal? "old"), ← indexOf (← j.getObjVal? "new") with
+  | some old, some new =>
+    let upd := IndexUpdate.update old new
+    pure (Lean.Json.mkObj [("entries", Lean.Json.arr (upd.map fun e => Lean.Json.mkObj [("key", keyTo e.1), ("entry", entryTo e.2)]).toArray)])
+  | _, _ => throw "index_update: two indexes needed"
+
+/-- the files below a store root (as path components) -> what `all()` lists, and what a `gc` keeping `keep` leaves -/
+def opStoreLayout (j : Lean.Json) : Except String Lean.Json := do
+  let files ← (← arr j "files").toList.mapM fun f => do
+    (← f.getArr?).toList.mapM fun p => do pure (← p.getStr?).toList
+  let keep := (← strList j "keep").map String.toList
+  let pathTo (p : StoreLayout.RelPath) : Lean.Json := Lean.Json.arr (p.map fun c => Lean.Json.str (String.ofList c)).toArray
+  pure (Lean.Json.mkObj [
+    ("oids", Lean.Json.arr ((StoreLayout.listOids files).map fun o => Lean.Json.str (String.ofList o)).toArray),
+    ("after_gc", Lean.Json.arr ((StoreLayout.afterGc files keep).map pathTo).toArray)])
 
 /-- several `build()` calls for one store (each with its own reference table), then transfers out of them, against the
     workspace as it is at transfer time: the file objects the store holds afterwards (oid, md5 of the bytes filed under it) -/
@@ -857,6 +877,8 @@ def dispatch (j : Json) : Except String Json := do
   | "index_diff" => opIndexDiff j
   | "diff_entry" => opDiffEntry j
   | "index_save" => opIndexSave j
+  | "index_update" => opIndexUpdate j
+  | "store_layout" => opStoreLayout j
   | "staging" => opStaging j
   | "fetch_counts" => opFetchCounts j
   | "store_add" => opStoreAdd j
